@@ -51,6 +51,7 @@ S1 ==
                  F("d", N("D")), F("dl", TList(N("D"))), F("it", N("IT")), F("itl", TList(N("IT"))), F("ta", N("TA")),
                  F("el", TList(N("E"))), F("eln", TNN(TList(N("E")))), F("uo", N("UO")),
                  F("sr", N("SR")), F("srl", TList(N("SR"))),
+                 F("ix", N("IX")),
                  \* leaves of the other built-in scalar types
                  F("fl", N("Float")), F("bo", N("Boolean")), F("idf", N("ID")), F("fnn", TNN(N("Float"))),
                  F("cuf", N("Cu")), F("cunn", TNN(N("Cu"))),
@@ -88,6 +89,8 @@ S1 ==
                                   !.selfres = TRUE],
      D |-> [Ty("OBJECT") EXCEPT !.fields = << F("p", N("String")), F("q", N("Int")), F("r", N("String")) >>,
                                  !.plain = TRUE],
+     \* an interface NO object implements; its type resolver answers A, which is not a possible type
+     IX |-> [Ty("INTERFACE") EXCEPT !.fields = << F("x", N("String")) >>, !.defrt = "A"],
      IT |-> [Ty("INTERFACE") EXCEPT !.fields = << F("x", N("String")) >>, !.defrt = "TA", !.noRT = TRUE],
      TA |-> [Ty("OBJECT") EXCEPT !.fields = << F("x", N("String")), F("p", N("String")) >>,
                                   !.ifaces = <<"IT">>, !.isTypeOf = TRUE],
